@@ -16,6 +16,31 @@ open Resolved Resolved.Codec
 def showEErr : EErr → String
   | .counterTooLarge c b => s!"CounterTooLarge({c},{b})"
 
+/-- C16: executable form of `WFName` (absolute, no empty label but the last, labels ≤ 63, total
+    ≤ 255 with `len` = encoded length, no ASCII upper case). -/
+def wfNameB (n : Name) : Bool :=
+  let ls := n.labels
+  !ls.isEmpty && ls.getLast? == some [] && ls.dropLast.all (fun l => !l.isEmpty) &&
+    ls.all (fun l => l.length ≤ 63 && l.all (fun b => !(65 ≤ b.toNat && b.toNat ≤ 90))) &&
+    n.len == ls.length + (ls.map List.length).sum && n.len ≤ 255
+
+def msgNames (m : Message) : List Name :=
+  m.questions.map (·.name) ++
+    (m.answers ++ m.authority ++ m.additional).flatMap (fun r =>
+      r.name :: r.fields.filterMap (fun f => match f with | .name n => some n | _ => none))
+
+/-- oracle for the constructors: whatever they return must be well-formed; `specAccept` (when
+    known) says whether the input is within the limits. -/
+def oracleName (impl : String) (specAccept : Option Bool) : String :=
+  if impl == "none" then (if specAccept == some true then "fail:C16:rejected-valid-name" else "ok")
+  else
+    match parseName impl with
+    | none => "fail:C16:unparsable"
+    | some n =>
+      if !wfNameB n then "fail:C16:constructed-name-not-wellformed"
+      else if specAccept == some false then "fail:C16:accepted-input-violating-limits"
+      else "ok"
+
 def be16? (buf : List UInt8) : Option Nat :=
   match buf with
   | a :: b :: _ => some (a.toNat * 256 + b.toNat)
@@ -30,7 +55,10 @@ def oracleDecode (buf : List UInt8) (impl : String) : String :=
   if impl.startsWith "ok " then
     match ref with
     | none => "fail:C03:accepted-malformed"
-    | some (m, _) => if "ok " ++ showMessage m = impl then "ok" else "fail:C03:misread"
+    | some (m, _) =>
+      if "ok " ++ showMessage m != impl then "fail:C03:misread"
+      else if !(msgNames m).all wfNameB then "fail:C16:wire-name-not-wellformed"
+      else "ok"
   else if impl.startsWith "err " then
     match ref with
     | some _ => "fail:C03:rejected-wellformed"
@@ -84,6 +112,22 @@ def dispatch (fields : List String) : Result :=
   match fields with
   | ["decode", hex, impl] => cmdDecode hex impl
   | ["encode", msg, impl] => cmdEncode msg impl
+  | ["reencode", hex, impl] =>
+    match bytesOfHex hex with
+    | none => bad "hex"
+    | some buf =>
+      let model := match decodeMessage buf with
+        | .error _ => "undecodable"
+        | .ok m1 => match encodeMessage m1 with
+          | .error _ => "reencode-failed"
+          | .ok b2 => match decodeMessage b2 with
+            | .error e => "redecode-failed " ++ showDErr e
+            | .ok m2 => if m1 == m2 then "same" else "differs"
+      let oracle :=
+        if impl == "undecodable" then (if (Ref.message buf).isNone then "ok" else "fail:C03:rejected-wellformed")
+        else if impl == "same" then "ok"
+        else "fail:C04:reencoded-message-does-not-decode-to-itself:" ++ ((impl.splitOn " ").headD "")
+      { model, oracle, tags := "re/" ++ ((model.splitOn " ").headD "") }
   | ["table.code", c, _] =>
     match c.toNat? with
     | none => bad "code"
@@ -108,25 +152,32 @@ def dispatch (fields : List String) : Result :=
     match bytesOfHex hex with
     | none => bad "hex"
     | some bs => { model := match Label.tryFrom bs with | none => "none" | some l => hexOfBytes l }
-  | ["name.fromLabels", ls, _] =>
+  | ["name.fromLabels", ls, impl] =>
     match parseLabels ls with
     | none => bad "labels"
-    | some ls => { model := showOptName (Name.fromLabels ls) }
-  | ["name.fromDotted", hex, _] =>
+    | some ls =>
+      let shape := !ls.isEmpty && ls.getLast? == some [] && ls.dropLast.all (fun l => !l.isEmpty)
+      let total := ls.length + (ls.map List.length).sum
+      { model := showOptName (Name.fromLabels ls), oracle := oracleName impl (some (shape && total ≤ 255)),
+        tags := if total ≥ 250 then "near-limit" else "small" }
+  | ["name.fromDotted", hex, impl] =>
     match bytesOfHex hex with
     | none => bad "hex"
-    | some s => { model := showOptName (Name.fromDotted s) }
-  | ["name.fromRelative", origin, hex, _] =>
+    | some s => { model := showOptName (Name.fromDotted s), oracle := oracleName impl none }
+  | ["name.fromRelative", origin, hex, impl] =>
     match parseName origin, bytesOfHex hex with
-    | some o, some s => { model := showOptName (Name.fromRelativeDotted o s) }
+    | some o, some s => { model := showOptName (Name.fromRelativeDotted o s), oracle := oracleName impl none }
     | _, _ => bad "args"
   | ["name.toDotted", n, _] =>
     match parseName n with
     | some n => { model := hexOfBytes n.toDotted }
     | none => bad "name"
-  | ["name.makeSub", n, o, _] =>
+  | ["name.makeSub", n, o, impl] =>
     match parseName n, parseName o with
-    | some n, some o => { model := showOptName (Name.makeSubdomainOf n o) }
+    | some n, some o =>
+      let total := (n.labels.dropLast ++ o.labels).length + ((n.labels.dropLast ++ o.labels).map List.length).sum
+      { model := showOptName (Name.makeSubdomainOf n o), oracle := oracleName impl (some (total ≤ 255)),
+        tags := if total ≥ 250 then "near-limit" else "small" }
     | _, _ => bad "args"
   | ["name.isSub", n, o, _] =>
     match parseName n, parseName o with
